@@ -130,7 +130,7 @@ def Finder.corrRad (r : Finder) : Rat := r.corr.rad 0 tMax
     positive period and scale factors; the period exceeds twice the radius of the periodic terms
     (results strictly increasing); the documented range check; the year-to-JDE constants 365.2425 and
     1721060 of the anchor formula; `|t| ≤ tMax` at both ends of the domain,
-    half a period included. -/
+    half a period included; the result `jde0 + corr` is a non-negative JDE on the domain (so that `Epoch(...)` is defined). -/
 def Finder.ok (r : Finder) : Bool :=
   decide (0 < r.B.toRat) && decide (0 < r.yc.toRat) && decide (0 < r.tc.toRat)
   && decide (0 < r.B.toRat - 2 * r.corrRad)
@@ -138,6 +138,7 @@ def Finder.ok (r : Finder) : Bool :=
   && decide (r.yc.toRat = 3652425 / 10000) && decide (r.y0.toRat = 1721060)
   && decide (-(tMax * r.tc.toRat) ≤ r.yc.toRat * r.ylo.toRat + r.y0.toRat - r.tj.toRat - r.B.toRat / 2)
   && decide (r.yc.toRat * r.yhi.toRat + r.y0.toRat - r.tj.toRat + r.B.toRat / 2 ≤ tMax * r.tc.toRat)
+  && decide (qabs r.corrMid + r.corrRad + tMax * r.tc.toRat ≤ r.tj.toRat)
 
 /-- Bound on `|k|` used for the first approximation of perihelion_aphelion (years -4000..+8000 for every planet). -/
 def PAFinder.kMax (r : PAFinder) : Rat := qabs r.C.toRat * 6100
